@@ -1,6 +1,7 @@
 package checks
 
 import (
+	"context"
 	"encoding/json"
 	"fmt"
 	"sort"
@@ -222,7 +223,29 @@ func c08Case(ev *vlib.Evidence, driver string, idx int, allowHang bool) {
 	start := w.Tick()
 	t0 := time.Now()
 	nonce := w.NextNonce(requester.NodeID)
-	out := guardedCall(w.Local, method, vlib.RefSign(requester.Key, method, requester.NodeID, nonce, arg), requester.NodeID, nonce, arg)
+	var out callOutcome
+	if viaClientAPI := !legacy && num <= 0 && r.Intn(2) == 0; viaClientAPI {
+		// the exported client API (what the agent uses) signs and sends the request itself
+		func() {
+			defer func() {
+				if p := recover(); p != nil {
+					out.Panic = fmt.Sprint(p)
+				}
+			}()
+			ctx, cancel := context.WithTimeout(context.Background(), vlib.CallTimeout)
+			defer cancel()
+			resp, err := pool.Remote(w.Local, requester.Key).Peer(ctx, pool.PeerRequest{Num: num, Kind: kind})
+			out.Err = err
+			if err == nil {
+				out.Raw, _ = json.Marshal(resp)
+			}
+			out.Accepted = err == nil || !strings.Contains(err.Error(), "failed to verify signature")
+			out.Verify = !out.Accepted
+		}()
+		trace = append(trace, "sent through pool.Remote(...).Peer")
+	} else {
+		out = guardedCall(w.Local, method, vlib.RefSign(requester.Key, method, requester.NodeID, nonce, arg), requester.NodeID, nonce, arg)
+	}
 	replyStamp := w.Tick()
 	took := time.Since(t0)
 	trace = append(trace, fmt.Sprintf("%s by %s(host=%v kind=%q) num=%d kind=%q -> err=%v panic=%q took=%s", method, requester.Name, reqIsHost, reqKind, num, kind, out.Err, out.Panic, took.Round(time.Millisecond)))
